@@ -25,6 +25,7 @@ def strategy(tier):
         st.tuples(st.just("reap"), i),
         st.tuples(st.just("recycle"), i, st.booleans()),
         st.tuples(st.just("become"), i),
+        st.tuples(st.just("rename"), i, st.integers(0, 9)),
         st.tuples(st.just("mkproc"), i),
         st.tuples(st.just("mkproc"), i),
         # a psutil.Popen object (a Process subclass) around the listed child;
@@ -53,6 +54,8 @@ def strategy(tier):
     return st.fixed_dictionaries(dict(
         setup=st.integers(0, 63),
         tick0=st.sampled_from([False, False, True]),   # first pool process starts at tick 0
+        # process names with parentheses / blanks (the stat record must be cut at the LAST ')')
+        odd_comm=st.booleans(),
         ops=history.with_motifs(ops, 4, nops),
     ))
 
@@ -60,7 +63,7 @@ def strategy(tier):
 def run_case(case):
     import psutil
 
-    w = history.World(first_tick=-1 if case.get("tick0") else 100)
+    w = history.World(first_tick=-1 if case.get("tick0") else 100, odd_comm=case.get("odd_comm", False))
     k = w.k
     labels = set()
     sig = []
@@ -116,6 +119,9 @@ def run_case(case):
                 w.reap(w.pick_pid(op[1]))
             elif kind == "become":
                 w.become(w.pick_pid(op[1]))
+            elif kind == "rename":
+                w.rename(w.pick_pid(op[1]), op[2])
+                labels.add("renamed-itself")
             elif kind == "recycle":
                 if w.recycle(w.pick_pid(op[1]), zombie=op[2]) is not None:
                     sig.append("recycle")
